@@ -178,6 +178,9 @@ STD_MODULES = {
     "syn": 'local e = {}\nfunction e.main(frame) return "x" .. end\nreturn e',
     "retnil": 'local e = {}\nfunction e.main(frame) return nil end\nreturn e',
     "pp": 'local e = {}\nfunction e.main(frame) return frame:preprocess("{{a|" .. (frame.args[1] or "") .. "}}") end\nreturn e',
+    "ppraw": 'local e = {}\nfunction e.main(frame) return frame:preprocess("{{" .. (frame.args[1] or "a") .. "}}") end\nreturn e',
+    "ppcall": 'local e = {}\nfunction e.main(frame) local ok, r = pcall(frame.preprocess, frame, "{{" .. (frame.args[1] or "a") .. "}}") return "ok=" .. tostring(ok) end\nreturn e',
+    "etcall": 'local e = {}\nfunction e.main(frame) local ok, r = pcall(frame.expandTemplate, frame, {title=frame.args[1] or "a", args={"q"}}) return "ok=" .. tostring(ok) end\nreturn e',
     "nest": 'local e = {}\nfunction e.main(frame) return frame:expandTemplate{title="inv", args={frame.args[1] or "n"}} end\nreturn e',
 }
 STD_TEMPLATES = {
@@ -198,7 +201,9 @@ _lua_ctx = None
 def lua_ctx(scratch):
     global _lua_ctx
     if _lua_ctx is None:
-        ctx = new_ctx(scratch)
+        def _boom(args):
+            raise ZeroDivisionError("template override raised (verification harness)")
+        ctx = new_ctx(scratch, template_override_funcs={"boom": _boom})
         ctx.add_page("Module:ustring:ustring", 828, USTRING_STUB, model="Scribunto")
         ctx.add_page("Module:echo", 828, ECHO_MODULE, model="Scribunto")
         for name, body in STD_MODULES.items():
